@@ -5,6 +5,8 @@ from .rules.dispatch import rule_dispatch, rule_stable
 from .rules.refusals import rule_assert, rule_kwsig, rule_raise, rule_regkey
 from .rules.truthy import rule_truthy
 from .rules.purity import rule_pure, rule_args, rule_global, rule_memo
+from .rules.token import rule_token
+from .rules.graph import rule_keys, rule_order, rule_cover
 
 PROPERTIES = {
     "C01": {
@@ -33,11 +35,12 @@ PROPERTIES = {
         "explanation": "R-PURE",
     },
     "C14": {
-        "rules": [rule_args, rule_global, rule_memo],
+        "rules": [rule_args, rule_global, rule_memo, rule_token],
         "technique": "interprocedural origins dataflow; registry typestate (deep-copied before any store); memoisation key/purity checks",
         "level_text": "Static, all-paths: API-reachable code never writes through an argument, the registry or a memoised result; the "
-                      "only module state is two content-keyed memo caches.",
-        "explanation": "R-ARGS, R-GLOBAL, R-MEMO",
+                      "only module state is two content-keyed memo caches; every explicitly named graph layer is content-named, its token covers every "
+                      "value-relevant ingredient, and Aggregation.__dask_tokenize__ covers every attribute tasks read.",
+        "explanation": "R-ARGS, R-GLOBAL, R-MEMO, R-TOKEN",
     },
     "C19": {
         "rules": [rule_raise, rule_defassign, rule_regkey, rule_kwsig, rule_assert],
@@ -49,6 +52,26 @@ PROPERTIES = {
                       "does not accept (TypeError inside a task) -- and every assert is triaged (user-reachable ones are findings). "
                       "Completeness of up-front validation and 'auto works wherever map-reduce does' are not decided.",
         "explanation": "R-RAISE, R-DEFASSIGN, R-REGKEY, R-KWSIG, R-ASSERT",
+    },
+    "C03": {
+        "rules": [rule_keys, rule_order, rule_global, rule_algebra],
+        "technique": "def-use closure of graph keys over enclosing loops; taint (unordered source -> block selection) with sanitizers; "
+                     "module-state scan; associativity column of the monoid table",
+        "level_text": "Static, all-paths: the premises of 'a DAG of pure tasks is schedule-independent' for the hand-written tree: every "
+                      "hand-written key is injective in all enclosing loop variables (levels, cohorts, partitions), block ids never reach a "
+                      "block selection through an unordered container, no reachable code touches module state, and every combine "
+                      "operator is a row of the (associative) monoid table. Floating-point re-association, the tree-depth arithmetic and "
+                      "actual schedules are not decided.",
+        "explanation": "R-KEYS, R-ORDER, R-GLOBAL, R-ALGEBRA",
+    },
+    "C09": {
+        "rules": [rule_cover, rule_keys, rule_token],
+        "technique": "def-use closure checks on the planner's cohort->blocks map and on cohort sub-tree keys; content-named subset layers",
+        "level_text": "Static, all-paths: the block set stored for a merged cohort is computed from the blocks of every member label (and "
+                      "exact cohorts are keyed by each label's own block set), cohort sub-trees write pairwise distinct keys and every "
+                      "cohort's subset layer is content-named. The partition/cover of labels produced by the heuristics is data dependent "
+                      "and not decided.",
+        "explanation": "R-COVER, R-KEYS, R-TOKEN",
     },
     "C04": {
         "rules": [rule_algebra, rule_parallel],
@@ -72,4 +95,4 @@ NOT_APPLICABLE = {
 
 # properties whose rules are designed (DESIGN.md §3) but not built yet: not claimed until they are
 PENDING = {p: "static rules designed in DESIGN.md but not built yet in this revision; not claimed"
-           for p in ["C02", "C03", "C06", "C07", "C08", "C09", "C10", "C11", "C12", "C16", "C18", "C20"]}
+           for p in ["C02", "C06", "C07", "C08", "C10", "C11", "C12", "C16", "C18", "C20"]}
